@@ -828,6 +828,11 @@ func (net *Net) Restart(i int) error {
 	if old == nil || old.Dead {
 		return nil
 	}
+	ors := old.CS.GetRoundState()
+	oldLock := ""
+	if ors.LockedBlock != nil {
+		oldLock = fmt.Sprintf("%x@%d/%d", ors.LockedBlock.Hash().Bytes()[:4], ors.Height, ors.LockedRound)
+	}
 	old.Stop(true)
 	o := old.Opts
 	o.MemWAL = old.mem
@@ -844,5 +849,17 @@ func (net *Net) Restart(i int) error {
 		return fmt.Errorf("start: %w", err)
 	}
 	net.observe(n)
+	nrs := n.CS.GetRoundState()
+	newLock := ""
+	if nrs.LockedBlock != nil {
+		newLock = fmt.Sprintf("%x@%d/%d", nrs.LockedBlock.Hash().Bytes()[:4], nrs.Height, nrs.LockedRound)
+	}
+	if oldLock != "" && nrs.Height == ors.Height && newLock != oldLock {
+		net.Stats["lock_differs_after_restart"]++
+		if os.Getenv("VERIF_DEBUG_RESTART") != "" {
+			fmt.Fprintf(os.Stderr, "restart %d: lock before %s, after %q (before %d/%d/%v after %d/%d/%v)\n", i, oldLock, newLock, ors.Height, ors.Round, ors.Step, nrs.Height, nrs.Round, nrs.Step)
+		}
+		net.note("restart %d: lock before %s, after %q (step before %d/%d/%v after %d/%d/%v)", i, oldLock, newLock, ors.Height, ors.Round, ors.Step, nrs.Height, nrs.Round, nrs.Step)
+	}
 	return nil
 }
